@@ -127,6 +127,7 @@ func (d *Decrypter) processMessage(device *model.Device, decoded server.LoRaMess
 		lg.Warning("Unable to retrieve downstream message for device %s: %v", device.DeviceEUI, err)
 	}
 
+	stage("decrypter.emit", device.DeviceEUI.String())
 	d.macOutput <- decoded
 
 	d.context.AppRouter.Publish(application.AppEUI, &server.PayloadMessage{
@@ -206,16 +207,19 @@ func (d *Decrypter) Start() {
 		go func(decoded server.LoRaMessage) {
 			if decoded.FrameContext.GatewayContext.RawMessage == nil {
 				lg.Error("Missing raw message representation. Unable to proceed.")
+				stage("decrypter.done", "")
 				return
 			}
 			if decoded.Payload.MHDR.MType == protocol.JoinRequest {
 				go func() {
 					d.verifyAndProcessJoinRequest(decoded)
+					stage("join.done", "")
 				}()
 				return
 			}
 
 			d.verifyAndDecryptMessage(decoded)
+			stage("decrypter.done", "")
 		}(m)
 	}
 
